@@ -8,3 +8,4 @@ pub mod sweep;
 pub mod targets;
 pub mod defrag_explore;
 pub mod entries;
+pub mod fields;
